@@ -489,7 +489,14 @@ func (g *vGen) hostilePrefix(steps int, hostile bool) {
 		case x < 95 && hostile:
 			mode := []string{"down", "up", "disconnect", "connect"}[r.Intn(4)]
 			s.exec(&vOp{Op: "conn", N: c.At, Peer: c.Peer, Mode: mode})
-			if r.Intn(2) == 0 {
+			if mode == "down" {
+				// something to announce, then a tick that finds no connection: the queue must be kept
+				if k := c.At; k < 3 && g.freshNext[k] < g.ly.F {
+					s.exec(&vOp{Op: "create", N: k, Tx: g.ly.fresh[k] + g.freshNext[k]})
+					g.freshNext[k]++
+				}
+				s.exec(&vOp{Op: "tick", N: c.At, Peer: c.Peer})
+			} else if r.Intn(2) == 0 {
 				s.exec(&vOp{Op: "tick", N: c.At, Peer: c.Peer})
 			}
 		case x < 98:
